@@ -129,6 +129,31 @@ CLAIMED["C15"] = (
     "the plugin's interner. Not decided: canonicity at every instant under all interleavings.",
     "Trusted: rustc nightly MIR + MaybeInitializedPlaces; parking_lot guards; Weak::upgrade semantics.")
 
+# clauses added in later rounds (seeded changes, systematic mutants, defects D7-D10); appended to the `Decides` text
+ADDENDA = {
+    "C01": "Later clauses: a cache hit records its observation; backward projection collects exactly projections; CalleeOrder updates are order-preserving and abort_callee removes exactly the callee; "
+           "the popped stripped-buffer edge is the one processed; firewall set and the observations of its members are replaced together with the callees' current fingerprints (D8).",
+    "C02": "Later clauses: upgrade_to_exclusive resets every memoised column after re-acquiring; the tier upgrade of a caller set re-inserts every drained member; the key-of-set loader / overlay / merging reader "
+           "clauses of C09 (as C02.h), because caller sets are key-of-set entries.",
+    "C03": "Later clause: no Recompute is reachable from a Cleaned / NoNeed answer of a callee check (only a changed value forces re-execution).",
+    "C04": "Later clauses: a session starts uncommitted and only commit() sets the flag; the phase lock is acquired only by Engine::tracked / snapshot_graph_from, the session guard only by Engine::input_session.",
+    "C05": "Later clauses: defuse disarms / new arms the undo tokens; Guard::drop reaches take()+spawn on EVERY path (no early exit); the join of parallel repair chunks lowers the flag only on Ok(Cleaned) (as C05.f); abort_callee removes on both arms (as C05.g).",
+    "C06": "Later clauses: register_callee registers on every path; the probe marks the start false; the Result of a callee's repair is inspected before its stored info is read (D9).",
+    "C07": "Later clauses: QueryKind::Input is written exactly for explicit inputs (set_input/update true, refresh false); batch coalescing / staging clauses of C09 (as C07.f).",
+    "C09": "Later clauses: in-memory insert reaches the set on every path; every scanned member is inserted before the loader may spill; a message for the staging log is applied or deferred, never dropped; "
+           "every filtered source of the merging reader is re-polled after a rejected member (D10).",
+    "C10": "Later clauses: a popped batch is consumed before it is listed for notification; the committer drains until nothing is ready; each backend commit is exactly one store write on every path (C08.d/e as C10.g).",
+    "C11": "Later clauses: operations of one batch are applied in issue order; consume replays every recorded operation; the serializer's raw-read and varint-reader clauses (C12.l, C12.k as C11.h), since both backends decode every stored byte with them.",
+    "C12": "Later clauses: both halves of as_slices are consumed; decoded BitVec cut to the bit length; the four varint readers are the same loop up to the width, return on the clear-0x80 edge, mask 0x7f, step 7 (C12.k); "
+           "no read_exact in a loop targets the whole / a prefix of a loop-carried result buffer, read_raw_bytes sizes its buffer by len (C12.l); the interner's double-checked insertion (C15.a, as C12.f).",
+    "C13": "Later clauses: every field of every hand-written StableHash impl is hashed (table), every impl feeds the hasher.",
+    "C16": "Later clauses: on_write polarity, unpin leaves the Pinned region.",
+}
+for k_, v_ in ADDENDA.items():
+    t_ = CLAIMED[k_]
+    CLAIMED[k_] = (t_[0], t_[1] + " " + v_, t_[2])
+
+
 NOT_YET = "check under construction in this round (DESIGN.md section 5 lists its clauses); not claimed until its rules are armed and self-tested"
 
 checks = []
